@@ -227,6 +227,12 @@ type deferRec struct {
 	call  *ssa.Defer
 	args  []Val
 	fnv   Val
+	// a call deferred INSIDE a loop that is verified by invariant: an unknown number of such calls (one per earlier
+	// iteration) is pending at function exit; bc is the callee's contract, full its arguments in the registering iteration
+	inLoop bool
+	bc     *BoundContract
+	full   []Val
+	key    string
 }
 
 type frame struct {
@@ -1070,6 +1076,10 @@ func (fr *frame) execInstr(st *State, in ssa.Instruction) {
 		if x.Call.Value != nil {
 			fv = fr.get(x.Call.Value)
 		}
+		if len(fr.heads) > 0 {
+			fr.deferInLoop(st, x, args, fv)
+			break
+		}
 		fr.defers = append(fr.defers, deferRec{guard: st.pc, call: x, args: args, fnv: fv})
 	case *ssa.RunDefers:
 		fr.runDefers(st)
@@ -1617,10 +1627,125 @@ func (fr *frame) convert(st *State, x *ssa.Convert) Val {
 	return nil
 }
 
+// deferInLoop: "defer f(args)" inside a loop verified by invariant. The callee must have a contract whose frame consists of
+// ghost cells. Its precondition is an obligation at the defer statement, again at the end of the registering iteration
+// (back edges) and at function exit for the iteration that leaves the loop; that LATER iterations keep it is assumed
+// (listed). At function exit the pending calls of all iterations run: their joint effect is the havoc of the named ghost
+// fields on every object (a superset of any number of calls with any arguments); nothing is assumed of their postconditions.
+func (fr *frame) deferInLoop(st *State, x *ssa.Defer, args []Val, fv Val) {
+	u := fr.u
+	cc := &x.Call
+	var bc *BoundContract
+	var full []Val
+	key := ""
+	if cc.IsInvoke() {
+		recv, _ := fv.(*IfaceV)
+		if recv == nil {
+			unsupported("defer inside a loop: receiver %T", fv)
+		}
+		key = "(" + types.TypeString(types.Unalias(cc.Value.Type()), nil) + ")." + cc.Method.Name()
+		bc = u.E.externFor(u.Fn, key)
+		full = append([]Val{recv}, args...)
+	} else if f, ok := fv.(*FuncV); ok && f.Fn != nil && len(f.Free) == 0 {
+		key = fnKey(f.Fn)
+		if f.Fn.Pkg != nil && u.Fn != nil && u.Fn.Pkg != nil && f.Fn.Pkg != u.Fn.Pkg {
+			bc = u.E.externFor(u.Fn, key)
+		}
+		if bc == nil {
+			bc = u.E.contractFor(f.Fn)
+		}
+		if bc == nil {
+			bc = u.E.externFor(u.Fn, key)
+		}
+		full = args
+	}
+	if bc == nil {
+		unsupported("defer inside a loop: the deferred callee %s has no contract", key)
+	}
+	if bc.ModifiesAll || !ghostOnlyFrame(bc.Modifies) {
+		unsupported("defer inside a loop: the frame of %s is not made of ghost cells", key)
+	}
+	u.Trusted["call deferred inside a loop ("+key+" in "+fr.fn.Name()+"): precondition checked at the defer statement, at the end of the registering iteration and at exit; assumed to survive later iterations"] = true
+	d := deferRec{guard: st.pc, call: x, args: args, fnv: fv, inLoop: true, bc: bc, full: full, key: key}
+	fr.checkDeferredPre(st, d, "requires@defer")
+	fr.defers = append(fr.defers, d)
+}
+
+func (fr *frame) checkDeferredPre(st *State, d deferRec, kind string) {
+	u := fr.u
+	if u.specMode > 0 {
+		return
+	}
+	g := u.C.And(st.pc, d.guard)
+	if g.IsFalse() {
+		return
+	}
+	s1 := st.clone()
+	s1.pc = g
+	env := u.newSpecEnv(d.bc, s1, s1, d.full, nil)
+	site := u.srcText(fr.fn, d.call.Pos(), "defer")
+	for _, rq := range d.bc.Requires {
+		u.oblige(s1, kind, fmt.Sprintf("%s requires %s", site, rq.Text()), d.call.Pos(), env.evalBool(rq.Expr))
+	}
+}
+
+// ghostOnlyFrame: every item of a modifies clause is a ghost cell (ghostInt/ghostBool/held/misc/ghostAll)
+func ghostOnlyFrame(items []ast.Expr) bool {
+	for _, it := range items {
+		call, ok := it.(*ast.CallExpr)
+		if !ok {
+			return false
+		}
+		id, ok := call.Fun.(*ast.Ident)
+		if !ok {
+			return false
+		}
+		switch id.Name {
+		case "ghostInt", "ghostBool", "held", "misc", "ghostAll":
+		default:
+			return false
+		}
+	}
+	return true
+}
+
+// havocDeferredInLoop: the effect of all pending calls registered by the iterations of the loop
+func (fr *frame) havocDeferredInLoop(st *State, d deferRec) {
+	u := fr.u
+	c := u.C
+	env := u.newSpecEnv(d.bc, st, st, d.full, nil)
+	r := NewRegion()
+	for _, it := range d.bc.Modifies {
+		call := it.(*ast.CallExpr)
+		fid := 0
+		switch call.Fun.(*ast.Ident).Name {
+		case "held":
+			fid = fGhostHeld
+		case "misc":
+			fid = fGhostMisc
+		case "ghostAll":
+			fid = env.ghostField(call.Args[0])
+		default:
+			fid = env.ghostField(call.Args[1])
+		}
+		f := fid
+		for _, k := range []string{"bv64", "bool"} {
+			r.add(k, func(a *Term) *Term { return c.FldIdIs(a, f) })
+		}
+	}
+	fr.checkSubRegion(st, r, u.srcText(fr.fn, d.call.Pos(), "defer"), d.call.Pos())
+	u.havocRegion(st, r, d.key)
+}
+
 func (fr *frame) runDefers(st *State) {
 	u := fr.u
 	for i := len(fr.defers) - 1; i >= 0; i-- {
 		d := fr.defers[i]
+		if d.inLoop {
+			fr.checkDeferredPre(st, d, "requires@exit")
+			fr.havocDeferredInLoop(st, d)
+			continue
+		}
 		// run under guard: split state
 		g := u.C.And(st.pc, d.guard)
 		if g.IsFalse() {
